@@ -212,8 +212,8 @@ def r06_4(ck, F):
     b = F.main_body("rch::mpsc::send_impl")
     closed = {bb for bb, t in b.calls("tokio::sync::watch::Sender::send") if "closed_tx" in mir.show(b.expr(t["a"][0]))}
     rerr = {bb for bb, t in b.calls("tokio::sync::watch::Sender::send") if "remote_send_err_tx" in mir.show(b.expr(t["a"][0]))}
-    ck.expect(len(closed) >= 5 and len(rerr) >= 5, "send_impl#publish-sites", f"{len(closed)} closed / {len(rerr)} error publications",
-              f"send_impl publishes closed at {len(closed)} and errors at {len(rerr)} sites (expected 5 each)", b.loc(0))
+    ck.expect(len(closed) >= 1 and len(rerr) >= 1, "send_impl#publish-sites", f"{len(closed)} closed / {len(rerr)} error publications",
+              f"send_impl publishes closed at {len(closed)} and errors at {len(rerr)} sites (none means: never)", b.loc(0))
     # local queue closed: None of the `rx.recv()` branch (second select branch, directly an Option)
     local_none = []
     for s in b.reachable:
@@ -241,6 +241,49 @@ def r06_4(ck, F):
         ok = ok and bool(edges) and b.find_path(edges, [x["poll_bb"] for x in sel], avoid=closed) is None
     ck.expect(ok, "send_impl#send-error-publishes", "a failed remote send publishes the error before the next iteration",
               "a failed remote send is not published to the local senders", b.loc(0))
+
+
+def r06_2b(ck, F):
+    ck.rule("R06.2b", "no sink error is dropped inside the send loop: in ChMux::send_task every awaited sink operation "
+            "(SinkReady, feed_msg, flush) from which the loop can continue has its Result examined (`?` / match) on every "
+            "path from its completion to the next iteration or to the function's return; only the final flush after the "
+            "loop may be ignored",
+            "the sink fails exactly on the Goodbye frame (or on a Ping): send_task returns Ok, run() waits for a remote "
+            "Goodbye that never comes, the remote keeps pinging so no timeout fires — the dispatcher that saw the sink "
+            "error never reports it and local operations hang", floor=4)
+    b = F.main_body("chmux::mux::ChMux::send_task")
+    sels = select_info(b)
+    if not sels:
+        raise mir.AnchorMissing("select! loop of ChMux::send_task")
+    poll = sels[0]["poll_bb"]
+    n = 0
+    for a in b.awaits():
+        fn = a.get("fut_fn") or ""
+        if not (fn.endswith("feed_msg::{closure#0}") or fn.endswith("flush::{closure#0}") or "SinkReady" in fn):
+            continue
+        ready = a.get("ready_bb")
+        if ready is None or poll not in b.reach([ready]):
+            continue        # after the loop (the final flush): may be ignored, as documented in the source
+        n += 1
+        examined = set()
+        for bb, t in b.calls():
+            c = callee(t) or ""
+            if c.endswith("Try::branch") and t["a"]:
+                e = b.expr(t["a"][0])
+                if any(isinstance(x, tuple) and x and x[0] == "await" and x[2] == a["poll_bb"] for x in mir.walk(e)):
+                    examined.add(bb)
+        for s in b.reachable:
+            if b.term(s)["t"] == "switch" and s not in (a["poll_bb"], b.term(a["poll_bb"]).get("tgt")):
+                e = switch_expr(b, s)
+                if e[0] == "discr" and isinstance(e[1], tuple) and e[1] and e[1][0] == "await" and e[1][2] == a["poll_bb"]:
+                    examined.add(s)
+        p = b.find_path([ready], [poll] + list(b.returns()), avoid=examined)
+        what = fn.split("::")[-2] if "closure" in fn else "SinkReady"
+        ck.expect(p is None, f"send_task#{what}@{n}-examined", f"result of {what} examined on every path",
+                  f"ChMux::send_task: the Result of {what} awaited at line {a['line']} can reach the next iteration / the "
+                  f"function's return without being examined: a sink error is dropped", b.loc(ready),
+                  {"path": [b.loc(x) for x in (p or [])][:14]})
+    ck.expect(n >= 4, "send_task#sink-ops", f"{n} in-loop sink operations", f"only {n} in-loop sink operations found", None)
 
 
 def r06_5(ck, F):
@@ -288,5 +331,5 @@ def r06_5(ck, F):
 
 
 def run(ck, F):
-    for r in (r06_1, r06_2, r06_3, r06_3b, r06_4, r06_5):
+    for r in (r06_1, r06_2, r06_2b, r06_3, r06_3b, r06_4, r06_5):
         ck.run_rule(r)
